@@ -42,7 +42,8 @@ class MetricActionContext(ActionContext):
             labels, value = self._process_metric(metric)
             for processor in self.trigger_context.config.metric_processors:
                 try:
-                    getattr(processor, self._convert_type(metric.type))(metric.name, labels,
+                    # each processor gets its own labels: what one does to them must not reach the next one
+                    getattr(processor, self._convert_type(metric.type))(metric.name, dict(labels),
                                                                         metric.namespace or "deep",
                                                                         metric.help, metric.unit, value)
                 except Exception:
